@@ -103,6 +103,7 @@ type round struct {
 	resulted bool
 	reserved int
 	signMs   int64
+	signAbs  int64
 	signOff  int64
 	over     bool
 	timers   []*time.Timer
@@ -120,6 +121,9 @@ type world struct {
 	allDone chan struct{}
 	doneFlg bool
 	closed  bool
+	t0      time.Time
+	nAcc    int // blocks the scripted chain accepted
+	nNew    int // announcements seen on newBlockCh
 }
 
 func (w *world) emit(ev vh.Event) {
@@ -415,7 +419,7 @@ func (c *chain) ProcessBlock(b *massutil.Block) (bool, error) {
 			ev["sigok"] = sigok
 		}
 	}
-	ev["signms"], ev["signoff"] = r.signMs, r.signOff
+	ev["signms"], ev["signoff"], ev["signabs"] = r.signMs, r.signOff, r.signAbs
 	ev["ms"] = now.Sub(r.first).Milliseconds()
 	ev["res"] = r.Res
 	w.emit(ev)
@@ -427,6 +431,7 @@ func (c *chain) ProcessBlock(b *massutil.Block) (bool, error) {
 	}
 	switch r.Res {
 	case "accept":
+		w.nAcc++
 		return false, nil
 	case "orphan":
 		return true, nil
@@ -505,6 +510,7 @@ func (k *keeper) SignHash(sid string, hash [32]byte) (*pocec.Signature, error) {
 	ev := vh.Event{"ev": "Sign", "k": name, "round": -1}
 	if r := k.w.cur(); r != nil && !r.first.IsZero() {
 		r.signMs, r.signOff = time.Since(r.first).Milliseconds(), nowSlot()-r.B
+		r.signAbs = time.Since(k.w.t0).Milliseconds()
 		ev["round"], ev["ms"], ev["off"] = r.idx, r.signMs, r.signOff
 	}
 	k.w.emit(ev)
@@ -553,10 +559,12 @@ func run(sc vh.Scenario, dir string, rec *vh.Rec) {
 		for h := range newBlockCh {
 			_ = h
 			w.mu.Lock()
+			w.nNew++
 			w.emit(vh.Event{"ev": "NewBlock"})
 			w.mu.Unlock()
 		}
 	}()
+	w.t0 = time.Now()
 	rec.Begin(vh.Event{"ev": "Start"})
 	if err := m.Start(); err != nil {
 		rec.Dead, rec.Note = true, "start: "+err.Error()
@@ -568,7 +576,7 @@ func run(sc vh.Scenario, dir string, rec *vh.Rec) {
 	case <-w.allDone:
 	case ri := <-w.stopReq:
 		w.mu.Lock()
-		w.emit(vh.Event{"ev": "Stop", "round": ri, "ms": time.Since(w.rounds[ri].first).Milliseconds()})
+		w.emit(vh.Event{"ev": "Stop", "round": ri, "ms": time.Since(w.rounds[ri].first).Milliseconds(), "abs": time.Since(w.t0).Milliseconds()})
 		w.mu.Unlock()
 		done := make(chan struct{})
 		go func() { m.Stop(); close(done) }()
@@ -601,6 +609,16 @@ func run(sc vh.Scenario, dir string, rec *vh.Rec) {
 			w.emit(vh.Event{"ev": "Stopped", "prompt": false})
 			w.mu.Unlock()
 		}
+	}
+	// the announcement of the last accepted block is read by another goroutine: let it be recorded before the end
+	for i := 0; i < 1000; i++ {
+		w.mu.Lock()
+		ok := w.nNew >= w.nAcc
+		w.mu.Unlock()
+		if ok {
+			break
+		}
+		time.Sleep(time.Millisecond)
 	}
 	w.mu.Lock()
 	served := make([]interface{}, 0)
